@@ -101,3 +101,34 @@ package client
 //@     && SubOf(res0).Prefix.Target == q.Target && SubOf(res0).UpdatesOnly == q.UpdatesOnly && SubOf(res0).Encoding == q.Encoding
 //@   ensures [every-query-path-parsed-from-its-escaped-text-in-order C19 C01] res1 == nil ==> len(SubOf(res0).Subscription) == len(q.Queries)
 //@     && (forall j int :: 0 <= j && j < len(q.Queries) ==> SubOf(res0).Subscription[j] != nil && parsedFrom[SubOf(res0).Subscription[j].Path] == escJoin(view(q.Queries[j])))
+
+// ---- the RPC side of the client ---------------------------------------------------------
+// protoHandled: responses handed to the installed response handler (ghost).
+//@ ghost protoHandled int
+//@ func field Client.recv (msg)
+//@   effect protoHandled := protoHandled + 1
+//@   modifies ghost protoHandled, ghost delivered, ghost connectedSent, heap(Client.connected), ghost lastJSONErr
+//@   note the installed response handler (defaultRecv, verified here, or the application's ProtoHandler)
+//@ func global ToSubscribeRequest (q)
+//@   ensures res1 == nil ==> res0 != nil
+//@   note the request builder is a package variable (subscribe, verified here, unless a test replaces it)
+// Recv hands each successfully received response to the installed handler, exactly once, and returns a stream error
+// as it is (so that the caller sees io.EOF).
+//@ func (*Client).Recv
+//@   props C01 C18 C12
+//@   requires c != nil && c.sub != nil && c.recv != nil
+//@   modifies ghost protoHandled, ghost delivered, ghost connectedSent, heap(Client.connected), ghost lastJSONErr, ghost streamRecvs
+//@   assert at call field Client.recv#0: [the-received-response-is-handled C01] arg0 == box(n) && n != nil
+//@   ensures [every-received-response-handled-once C01 C18] protoHandled - old(protoHandled) == streamRecvs - old(streamRecvs)
+//@ func (*Client).Poll
+//@   props C05 C18 C12
+//@   requires c != nil && c.sub != nil
+//@   modifies sends(c.sub)
+// Subscribe opens the RPC, sends the request (the caller's prepared SubReq if there is one, else the one built from the
+// query) and installs the handlers for the stream it opened.
+//@ func (*Client).Subscribe
+//@   props C01 C18 C19 C12
+//@   requires c != nil && c.client != nil && ToSubscribeRequest != nil
+//@   modifies *
+//@   assert at call BidiStreamingClient.Send#0: [sends-the-prepared-or-the-built-request C01 C19] arg0 != nil && (old(q.SubReq) != nil ==> arg0 == old(q.SubReq))
+//@   ensures [handlers-installed-for-the-opened-stream C01 C18] res0 == nil ==> c.sub != nil && c.recv != nil && (q.ProtoHandler == nil ==> c.handler == q.NotificationHandler)
